@@ -356,6 +356,8 @@ func checkC15(p *Prog, r *Report) {
 			r.floor("R15.6", "returns after a banner match", nret, 1)
 		}
 	}
+	// "only if all changes were accepted": the IOS instance of R09.1
+	ruleOutputValidated(p, nil, r, "ios")
 	r.Trusted = []string{"go/ssa, call graph", "IOS prints the reload banners in the forms bannerRe matches"}
 	r.NotDec = "all offsets of an asynchronous banner inside a byte stream (run-time parsing); prepareDevice's session set-up commands are sent before the reload is scheduled (they are not change commands of the plan)"
 }
